@@ -1,6 +1,6 @@
 (* Property C20 -- HTTP replies line up, entry by entry, with the commands that caused them *)
 (* Statements only: each theorem restates the proved lemma's statement and is closed by [exact]. *)
-From NunDB Require Import Model.Base Model.Pending Model.Parse Model.Node Proofs.ArbiterHttpProofs.
+From NunDB Require Import Model.Base Model.Pending Model.Parse Model.Node Proofs.ArbiterHttpProofs Model.Net Proofs.GuardProofs Proofs.NetProofs Proofs.NetProofs2.
 Local Open Scope Z_scope.
 
 (* every command of the HTTP set queues at most one line for the issuing (fresh) session and leaves it watching nothing *)
@@ -56,13 +56,67 @@ Print Assumptions C20_http_released.
 
 Theorem C20_example :
   Forall (fun cmd : str => stmt_ok (trim cmd)) (split_char ";" ex_body) /\
-         nowatch ex_node (Datatypes.length (n_sess ex_node)) /\
-         snd (http_request ex_node ex_body) =
+         nowatch ArbiterHttpProofs.ex_node (Datatypes.length (n_sess ArbiterHttpProofs.ex_node)) /\
+         snd (http_request ArbiterHttpProofs.ex_node ex_body) =
          Some
            ["valid auth" +++ nlS; "create-db success" +++ nlS; "empty"; "empty"; "value v" +++ nlS;
             "unknown command: bogus"; "empty"; "empty"; "empty"; "keys ,$$token,$connections,i" +++ nlS;
             "value-version 1 2" +++ nlS] /\
          nonblank (split_char ";" ex_body) = 11%nat /\
-         map (conn_of (fst (http_request ex_node ex_body))) ["$admin"; "d1"] = [0; 0].
+         map (conn_of (fst (http_request ArbiterHttpProofs.ex_node ex_body))) ["$admin"; "d1"] = [0; 0].
 Proof. exact http_example. Qed.
 Print Assumptions C20_example.
+
+(* one WebSocket frame 'a;b' is frame a followed by frame b: executed once each, in order, each answered by its own terminator *)
+Theorem C20_ws_frame_seq :
+  forall (n : node) (c : nat) (a b : str),
+         utf8_valid a = true ->
+         utf8_valid b = true ->
+         ws_frame n c (a +++ ";" +++ b) =
+         match ws_frame n c a with
+         | (n1, Serving) => ws_frame n1 c b
+         | (n1, ThreadDied) => (n1, ThreadDied)
+         end.
+Proof. exact ws_frame_seq. Qed.
+Print Assumptions C20_ws_frame_seq.
+
+(* a frame without ';' is one command and one terminator *)
+Theorem C20_ws_frame_single :
+  forall (n : node) (c : nat) (p : str),
+         AdminInv n ->
+         utf8_valid p = true ->
+         (forall i : nat, get i p <> Some ";"%char) ->
+         ws_frame n c p = (send (fst (step n c p)) c (term_ws (snd (step n c p))), Serving).
+Proof. exact ws_frame_single. Qed.
+Print Assumptions C20_ws_frame_single.
+
+(* n commands in one frame = the n commands one after the other *)
+Theorem C20_ws_frame_cmds :
+  forall (cmds : list str) (n : node) (c : nat),
+         AdminInv n ->
+         cmds <> [] ->
+         Forall cmd_ok cmds -> ws_frame n c (join ";" cmds) = (fold_left (ws_one c) cmds n, Serving).
+Proof. exact ws_frame_cmds. Qed.
+Print Assumptions C20_ws_frame_cmds.
+
+(* a concrete frame of five commands: the inbox holds each command's own messages and terminator in order *)
+Theorem C20_ws_frame_five_commands :
+  snd (connect (init_node "u" "p" "a" 1 Primary 0)) = 0%nat /\
+         ex_frame = join ";" ex_cmds /\
+         snd (ws_frame ex_node 0 ex_frame) = Serving /\
+         s_inbox (get_sess (fst (ws_frame ex_node 0 ex_frame)) 0) =
+         ["valid auth" +++ nlS; okT; "create-db success" +++ nlS; okT; okT; okT; "value v" +++ nlS; okT] /\
+         own_outputs ex_node 0 ex_cmds =
+         [["valid auth" +++ nlS; okT]; ["create-db success" +++ nlS; okT]; [okT]; [okT];
+          ["value v" +++ nlS; okT]] /\
+         s_inbox (get_sess (fst (ws_frame ex_node 0 ex_frame)) 0) = concat (own_outputs ex_node 0 ex_cmds) /\
+         fst (ws_frame ex_node 0 ex_frame) =
+         fold_left (fun (n : node) (p : str) => fst (ws_frame n 0 p)) ex_cmds ex_node.
+Proof. exact ws_frame_five_commands. Qed.
+Print Assumptions C20_ws_frame_five_commands.
+
+(* a valid frame cut at ';' gives valid commands *)
+Theorem C20_utf8_valid_app_inv :
+  forall a b : string, utf8_valid (a +++ ";" +++ b) = true -> utf8_valid a = true /\ utf8_valid b = true.
+Proof. exact utf8_valid_app_inv. Qed.
+Print Assumptions C20_utf8_valid_app_inv.
